@@ -343,6 +343,17 @@ Lemma nl_step_code : forall st, (fst (nl_step st) =? 0) = true -> snd (nl_step s
 Proof. intros st H. destruct st; cbn in *; try discriminate; reflexivity. Qed.
 
 (* characters that are neither delimiters nor the line break *)
+Lemma nq_other : forall n, (n =? 8216) = false -> (n =? 8217) = false -> (n =? 171) = false -> (n =? 187) = false ->
+  (n =? 8220) = false -> (n =? 8221) = false -> nq n = n.
+Proof. intros n H1 H2 H3 H4 H5 H6. unfold nq. rewrite H1, H2, H3, H4, H5, H6. reflexivity. Qed.
+
+(* white space characters are not delimiters of the scanner *)
+Definition sp_ok (is_space : N -> bool) : Prop :=
+  is_space 39 = false /\ is_space 34 = false /\ is_space 96 = false /\
+  is_space 45 = false /\ is_space 42 = false /\ is_space 47 = false /\
+  is_space 8216 = false /\ is_space 8217 = false /\ is_space 171 = false /\ is_space 187 = false /\
+  is_space 8220 = false /\ is_space 8221 = false.
+
 Definition plainc (c : ch) : bool := negb (is_quote c) && lan c && negb (is_nl c).
 
 Lemma plainc_spec : forall c, plainc c = true ->
@@ -1047,7 +1058,7 @@ Section L007.
   Variable upper_ascii : N -> option N.
   Variable keywords : list (list N).
   (* facts about the tables, decided on the regenerated tables in Inst_C17 *)
-  Definition plainN (n : N) : Prop := n <> 39 /\ n <> 34 /\ n <> 96 /\ n <> 45 /\ n <> 42 /\ n <> 47 /\ n <> 10.
+  Definition plainN (n : N) : Prop := nq n <> 39 /\ nq n <> 34 /\ n <> 96 /\ n <> 45 /\ n <> 42 /\ n <> 47 /\ n <> 10.
   Hypothesis up_plain : forall x u, upper_ascii x = Some u -> plainN x /\ plainN u.
   Hypothesis up_letter : forall x u, upper_ascii x = Some u -> is_letter u = true.
   Hypothesis up_idem : forall x u, upper_ascii x = Some u -> upper_ascii u = Some u.
@@ -1302,17 +1313,17 @@ Section L003Text.
   Variable is_space : N -> bool.
   Variable upper_ascii : N -> option N.
   (* white space characters are not delimiters of the scanner *)
-  Hypothesis sp_nodelim : is_space 39 = false /\ is_space 34 = false /\ is_space 96 = false /\
-                          is_space 45 = false /\ is_space 42 = false /\ is_space 47 = false.
+  Hypothesis sp_nodelim : sp_ok is_space.
   Notation cblank := (cblank is_space).
   Notation pass := (l003_pass is_space).
 
   Lemma spacec_plain : forall c, spacec is_space c = true -> is_nl c = false -> plainc c = true.
   Proof.
-    intros c H Hn. destruct sp_nodelim as (A & B & C & D & E & F). unfold spacec in H.
+    intros c H Hn. destruct sp_nodelim as (A & B & C & D & E & F & Q1 & Q2 & Q3 & Q4 & Q5 & Q6). unfold spacec in H.
     unfold plainc, is_quote, lan. rewrite Hn.
     assert (G : forall n, is_space n = false -> (cp c =? n) = false).
-    { intros n Hs. destruct (cp c =? n) eqn:En; [|reflexivity]. apply N.eqb_eq in En. rewrite En in H. congruence. }
+    { intros n Hs. destruct (cp c =? n) eqn:En; [|reflexivity]. apply N.eqb_eq in En. rewrite En in H. rewrite Hs in H. discriminate H. }
+    rewrite (nq_other (cp c) (G 8216 Q1) (G 8217 Q2) (G 171 Q3) (G 187 Q4) (G 8220 Q5) (G 8221 Q6)).
     rewrite (G 39 A), (G 34 B), (G 96 C), (G 45 D), (G 42 E), (G 47 F). reflexivity.
   Qed.
 
@@ -1479,8 +1490,7 @@ Section CliReading.
   Hypothesis up_plain : forall x u, upper_ascii x = Some u -> plainN x /\ plainN u.
   Hypothesis up_idem : forall x u, upper_ascii x = Some u -> upper_ascii u = Some u.
   Hypothesis up_nows : forall x u, upper_ascii x = Some u -> is_space x = false /\ x <> 32 /\ x <> 9 /\ x <> 10.
-  Hypothesis sp_nodelim : is_space 39 = false /\ is_space 34 = false /\ is_space 96 = false /\
-                          is_space 45 = false /\ is_space 42 = false /\ is_space 47 = false.
+  Hypothesis sp_nodelim : sp_ok is_space.
 
   Theorem cli_keeps_reading : forall t,
     reading is_space upper_ascii (cli_fix is_letter is_digit is_space upper_ascii keywords t) = reading is_space upper_ascii t.
@@ -1498,8 +1508,7 @@ End CliReading.
 Section Format.
   Variable is_space : N -> bool.
   Variable upper_ascii : N -> option N.
-  Hypothesis sp_nodelim : is_space 39 = false /\ is_space 34 = false /\ is_space 96 = false /\
-                          is_space 45 = false /\ is_space 42 = false /\ is_space 47 = false.
+  Hypothesis sp_nodelim : sp_ok is_space.
   Hypothesis sp32 : is_space 32 = true.
   Hypothesis sp9 : is_space 9 = true.
 
@@ -2588,8 +2597,7 @@ Section CliIdem.
   Hypothesis up_letter : forall x u, upper_ascii x = Some u -> is_letter u = true.
   Hypothesis up_idem : forall x u, upper_ascii x = Some u -> upper_ascii u = Some u.
   Hypothesis up_nows : forall x u, upper_ascii x = Some u -> is_space x = false /\ x <> 32 /\ x <> 9 /\ x <> 10.
-  Hypothesis sp_nodelim : is_space 39 = false /\ is_space 34 = false /\ is_space 96 = false /\
-                          is_space 45 = false /\ is_space 42 = false /\ is_space 47 = false.
+  Hypothesis sp_nodelim : sp_ok is_space.
   Hypothesis sp32 : is_space 32 = true.
 
   Notation prel := (prel upper_ascii).
